@@ -862,7 +862,7 @@ func (vc *FuncVC) execAppend(c *ssa.CallCommon, res ssa.Value) {
 	vc.cur = vc.cur.set("alloc", Store(a, nArr, tTrue))
 	nCap := vc.fresh("app.cap", SInt)
 	vc.assume(Implies(inPlace, Eq(nCap, sCap)))
-	vc.assume(Implies(Not(inPlace), And(Cmp("<=", newLen, nCap), Cmp("<=", nCap, T("4611686018427387904", SInt)))))
+	vc.assume(Implies(Not(inPlace), And(Cmp("<=", newLen, nCap), Cmp("<=", nCap, T("72057594037927936", SInt)))))
 	nOff := Ite(inPlace, sOff, IntLit(0))
 	result := T(app("mk_slice", nArr, nOff, newLen, nCap), SSlice)
 	// element effects
